@@ -1,16 +1,16 @@
 ----------------------------- MODULE MC_Dnssec -----------------------------
 EXTENDS Dnssec
 MCZoneKinds == {"signed", "signed-same", "insecure", "optout", "nsec3"}
-MCQKinds == {"a", "cname", "wild", "nodata", "nx", "dname", "ent"}
+MCQKinds == {"a", "cname", "wild", "nodata", "nx", "dname", "ent", "whost"}
 SigBreak == {"data", "sigbytes", "signer", "expired"}
 KindsAt(pos) ==
   CASE pos = "rootref"  -> SigBreak \cup {"strip", "dropds", "swapds"}
     [] pos = "referral" -> SigBreak \cup {"strip", "dropds", "swapds", "dropproof", "foreignproof"}
     [] pos = "dnskey"   -> SigBreak \cup {"strip", "clonetag", "roguekey"}
-    [] pos = "answer"   -> SigBreak \cup {"labels", "notyet", "strip", "dropproof", "foreignproof", "inject", "roguesig", "fakedname", "foreigndeny", "wildrep"}
+    [] pos = "answer"   -> SigBreak \cup {"labels", "notyet", "strip", "dropproof", "foreignproof", "inject", "roguesig", "fakedname", "foreigndeny", "wildrep", "wildforeign"}
 Untouched == [pos \in Positions |-> "none"]
 Single == {[Untouched EXCEPT ![pos] = k] : pos \in Positions, k \in SigBreak \cup {"strip", "dropds", "swapds", "dropproof",
-              "foreignproof", "clonetag", "labels", "notyet", "inject", "roguekey", "roguesig", "fakedname", "foreigndeny", "wildrep"}}
+              "foreignproof", "clonetag", "labels", "notyet", "inject", "roguekey", "roguesig", "fakedname", "foreigndeny", "wildrep", "wildforeign"}}
 SingleOK == {t \in Single : \A pos \in Positions : t[pos] = "none" \/ t[pos] \in KindsAt(pos)}
 MCTampers == {Untouched} \cup SingleOK
 \* pairs: one tampering at each of two different positions
